@@ -156,7 +156,12 @@ def relayout(stmts, rng, kinds):
             elif mode == "mixed":
                 t = "".join(c.upper() if rng.random() < 0.5 else c.lower() for c in t)
         # join with the next statement
-        if "semicolon" in kinds and kind in ("exec", "decl") and i + 1 < n and stmts[i + 1][1] == kind and rng.random() < 0.3:
+        low = text.strip().lower()
+        nxt_low = stmts[i + 1][0].strip().lower() if i + 1 < n else ""
+        # statements of one kind, or the pairs whose order the diagnostics watch: USE before IMPLICIT, CONTAINS before a procedure
+        joinable = (kind in ("exec", "decl") and i + 1 < n and stmts[i + 1][1] == kind) or (low.startswith("use ") and nxt_low == "implicit none") or \
+                   (low == "contains" and nxt_low.startswith(("subroutine ", "function ")))
+        if "semicolon" in kinds and joinable and rng.random() < 0.3:
             t2 = stmts[i + 1][0]
             start.append(len(lines)); start.append(len(lines))
             lines.append(t.rstrip() + rng.choice(["; ", ";", " ; "]) + t2.strip())
